@@ -236,7 +236,11 @@ type c08Call struct {
 	doc  string
 	opts encoder.Options
 	path []interface{}
+
+	respell bool
 }
+
+var c08Spell uint64
 
 func (x *c08Call) run() (res string) {
 	defer func() {
@@ -244,6 +248,23 @@ func (x *c08Call) run() (res string) {
 			res = fmt.Sprintf("PANIC %v", r)
 		}
 	}()
+	if x.respell {
+		// every execution spells the keys in another mix of upper and lower case: the decoded value does not depend on it
+		n := atomic.AddUint64(&c08Spell, 0x9e3779b97f4a7c15)
+		doc := c08FreshKeyRe.ReplaceAllStringFunc(x.doc, func(k string) string {
+			b := []byte(k)
+			for j := range b {
+				n = n*6364136223846793005 + 1442695040888963407
+				if n>>63 == 1 && b[j] >= 'a' && b[j] <= 'z' {
+					b[j] -= 32
+				}
+			}
+			return string(b)
+		})
+		y := *x
+		y.respell, y.doc = false, doc
+		return y.run()
+	}
 	switch x.kind {
 	case "Marshal":
 		o, err := sonic.ConfigStd.Marshal(x.v.Interface())
@@ -283,6 +304,9 @@ var c08RoundNo int
 
 var c08KeyRe = regexp.MustCompile(`"[a-z][a-z0-9_]*":`)
 
+// the key of the outer field of a fresh type: unique to it, so another spelling cannot select another field
+var c08FreshKeyRe = regexp.MustCompile(`"fresh_field_[0-9]+":`)
+
 func c08Codecs(c *Ctx, i int, r *gen.Rng) {
 	G := r.Range(2, 16)
 	K := r.Range(1, 8)
@@ -300,7 +324,7 @@ func c08Codecs(c *Ctx, i int, r *gen.Rng) {
 			// a struct type nobody has seen before: unique field name
 			inner := r.Type(&to, 0)
 			t = reflect.StructOf([]reflect.StructField{
-				{Name: fmt.Sprintf("F%d_%d_%d", c.Batch, i, k), Type: inner, Tag: reflect.StructTag(fmt.Sprintf(`json:"f%d"`, k))},
+				{Name: fmt.Sprintf("F%d_%d_%d", c.Batch, i, k), Type: inner, Tag: reflect.StructTag(fmt.Sprintf(`json:"fresh_field_%d"`, k))},
 				{Name: "N", Type: reflect.TypeOf(0), Tag: `json:"n,omitempty"`},
 				{Name: "S", Type: reflect.TypeOf([]string(nil)), Tag: `json:"s"`},
 			})
@@ -318,7 +342,7 @@ func c08Codecs(c *Ctx, i int, r *gen.Rng) {
 		calls = append(calls,
 			&c08Call{kind: "Marshal", t: t, v: v}, &c08Call{kind: "MarshalPtr", t: t, v: v}, &c08Call{kind: "Encode", t: t, v: v, opts: encoder.Options(r.Intn(512)) &^ (encoder.NoQuoteTextMarshaler | encoder.NoValidateJSONMarshaler)},
 			&c08Call{kind: "Unmarshal", t: t, doc: doc}, &c08Call{kind: "UnmarshalStd", t: t, doc: doc}, &c08Call{kind: "Pretouch", t: t},
-			&c08Call{kind: "Valid", doc: doc}, &c08Call{kind: "Get", doc: doc, path: []interface{}{"f0"}}, &c08Call{kind: "Get", doc: doc, path: []interface{}{0, "s"}},
+			&c08Call{kind: "Valid", doc: doc}, &c08Call{kind: "Get", doc: doc, path: []interface{}{"fresh_field_0"}}, &c08Call{kind: "Get", doc: doc, path: []interface{}{0, "s"}},
 			&c08Call{kind: "Unmarshal", t: reflect.TypeOf((*interface{})(nil)).Elem(), doc: doc})
 		// keys that match their fields only case-insensitively (the shared per-type field tables are consulted),
 		// documents that fail in the middle of nested containers and invalid UTF-8 under ValidateString
@@ -329,6 +353,7 @@ func c08Codecs(c *Ctx, i int, r *gen.Rng) {
 		iface := reflect.TypeOf((*interface{})(nil)).Elem()
 		calls = append(calls,
 			&c08Call{kind: "Unmarshal", t: t, doc: docCase}, &c08Call{kind: "UnmarshalStd", t: t, doc: docCase},
+			&c08Call{kind: "Unmarshal", t: t, doc: doc, respell: true}, &c08Call{kind: "UnmarshalStd", t: t, doc: doc, respell: true}, &c08Call{kind: "Unmarshal", t: t, doc: doc, respell: true},
 			&c08Call{kind: "Valid", doc: docBad}, &c08Call{kind: "Get", doc: docBad, path: []interface{}{"zz", 3}}, &c08Call{kind: "Unmarshal", t: iface, doc: docBad},
 			&c08Call{kind: "Valid", doc: `[[[{"a":[[[{"b":[1,`}, &c08Call{kind: "Get", doc: `{"a":{"b":[[[{"c":}`, path: []interface{}{"zz"}},
 			&c08Call{kind: "UnmarshalStd", t: iface, doc: docUTF}, &c08Call{kind: "UnmarshalStd", t: t, doc: docUTF},
